@@ -246,6 +246,18 @@ pub fn c06_e2e(bin: &str, seed: u64, sessions: u64, valgrind_sessions: u64) -> E
                 let slow = if vg { 30 } else { 1 };
                 let all = s.pump_until(move |s| idc.iter().all(|id| s.reply(id).is_some()) || s.out_eof, Duration::from_secs(12 * slow));
                 s.pump_for(Duration::from_millis(20));
+                // Wall clock is no verdict on a loaded machine: if something is still unanswered,
+                // ask again with a plain forward ("ping"). Only a plugin that answers the ping
+                // while the older call stays unanswered is hanging on that call; otherwise the
+                // session is inconclusive.
+                let mut responsive = true;
+                if !all && !s.out_eof {
+                    s.send_doc(&hook("ping", crate::e2e::forward_request(9999, "00")), 0);
+                    responsive = s.pump_until(|s| s.reply("ping").is_some() || s.out_eof, Duration::from_secs(30 * slow));
+                    let idc2: Vec<String> = ids.iter().map(|x| x.0.clone()).collect();
+                    // give the stragglers the same extra time the ping needed, plus the mpp timeout
+                    s.pump_until(move |s| idc2.iter().all(|id| s.reply(id).is_some()) || s.out_eof, Duration::from_secs(3));
+                }
                 calls.fetch_add(ids.len() as u64, std::sync::atomic::Ordering::Relaxed);
                 let died = s.out_eof || !s.alive();
                 let mut a = acc.lock().unwrap();
@@ -258,8 +270,10 @@ pub fn c06_e2e(bin: &str, seed: u64, sessions: u64, valgrind_sessions: u64) -> E
                                 a.inconclusive.push("call unanswered under valgrind within the slack".into());
                             } else if died {
                                 a.v(&format!("R06b|e2e-process-died|{kind}"), format!("plugin process ended; call {id} ({kind}) unanswered"));
+                            } else if !responsive {
+                                a.inconclusive.push("session too slow: neither the call nor a later ping was answered (valgrind/load)".into());
                             } else {
-                                a.v(&format!("R06c|e2e-unanswered|{kind}"), format!("call {id} ({kind}) not answered within 12 s (mpp timeout 1 s)"));
+                                a.v(&format!("R06c|e2e-unanswered|{kind}"), format!("call {id} ({kind}) still unanswered 15 s after it was sent (mpp timeout 1 s) although a later plain forward was answered"));
                             }
                         }
                         Some(r) => {
@@ -493,7 +507,13 @@ pub fn c19_e2e(bin: &str, seed: u64, quick: bool) -> (E2eResult, u64, u64) {
                     if pd >= 1 {
                         let req = tramp_request(&inv, 1, need, need, height + pd - 1, height);
                         s.send_doc(&hook("p1", req), 0);
-                        let ok = s.pump_until(|s| s.reply("p1").is_some() || s.out_eof, Duration::from_secs(8));
+                        let wres = s.wait_or_ping(|s| s.reply("p1").is_some(), Duration::from_secs(8));
+                        if wres == Wait::TooSlow {
+                            acc.lock().unwrap().inconclusive.push("mpp probe: session too slow to judge".into());
+                            s.finish();
+                            continue;
+                        }
+                        let ok = wres == Wait::Done;
                         let mut g = acc.lock().unwrap();
                         g.e("R19b-policy", 1);
                         let mut want = vec![0x20u8, 0x1a];
@@ -510,7 +530,13 @@ pub fn c19_e2e(bin: &str, seed: u64, quick: bool) -> (E2eResult, u64, u64) {
                     s.preimages.insert(hex::encode(inv2.hash), inv2.preimage);
                     let req = tramp_request(&inv2, 2, need, need, height + pd, height);
                     s.send_doc(&hook("p2", req), 0);
-                    let ok = s.pump_until(|s| s.reply("p2").is_some() || s.out_eof, Duration::from_secs(8));
+                    let wres = s.wait_or_ping(|s| s.reply("p2").is_some(), Duration::from_secs(8));
+                        if wres == Wait::TooSlow {
+                            acc.lock().unwrap().inconclusive.push("mpp probe: session too slow to judge".into());
+                            s.finish();
+                            continue;
+                        }
+                        let ok = wres == Wait::Done;
                     {
                         let mut g = acc.lock().unwrap();
                         g.e("R19b-pay", 1);
@@ -542,7 +568,13 @@ pub fn c19_e2e(bin: &str, seed: u64, quick: bool) -> (E2eResult, u64, u64) {
                         let inv4 = new_invoice(&mut rng, Some(amount), Hints::SelfLast);
                         let req = tramp_request(&inv4, 4, need, need, height + pd, height);
                         s.send_doc(&hook("p4", req), 0);
-                        let ok = s.pump_until(|s| s.reply("p4").is_some() || s.out_eof, Duration::from_secs(8));
+                        let wres = s.wait_or_ping(|s| s.reply("p4").is_some(), Duration::from_secs(8));
+                        if wres == Wait::TooSlow {
+                            acc.lock().unwrap().inconclusive.push("mpp probe: session too slow to judge".into());
+                            s.finish();
+                            continue;
+                        }
+                        let ok = wres == Wait::Done;
                         let mut g = acc.lock().unwrap();
                         g.e("R19b-noself", 1);
                         let got = s.reply("p4").and_then(|r| r["result"]["failure_message"].as_str().map(|x| x.to_string()));
@@ -580,7 +612,13 @@ pub fn c19_e2e(bin: &str, seed: u64, quick: bool) -> (E2eResult, u64, u64) {
                     let inv = new_invoice(&mut rng, Some(amount), Hints::None);
                     let req = tramp_request(&inv, 1, need, need, height + pd, height);
                     s.send_doc(&hook("p0", req), 0);
-                    let ok = s.pump_until(|s| s.reply("p0").is_some() || s.out_eof, Duration::from_secs(8));
+                    let wres = s.wait_or_ping(|s| s.reply("p0").is_some(), Duration::from_secs(8));
+                        if wres == Wait::TooSlow {
+                            acc.lock().unwrap().inconclusive.push("mpp probe: session too slow to judge".into());
+                            s.finish();
+                            continue;
+                        }
+                        let ok = wres == Wait::Done;
                     let mut g = acc.lock().unwrap();
                     g.e("R19b-mpp0", 1);
                     let got = s.reply("p0").and_then(|r| r["result"]["failure_message"].as_str().map(|x| x.to_string()));
@@ -714,15 +752,19 @@ pub fn crash_sessions(bin: &str, seed: u64, thorough: bool) -> E2eResult {
                             re.push(rid);
                         }
                     }
-                    let rc = re.clone();
-                    let ok = s2.pump_until(move |s| s.out_eof || rc.iter().all(|id| s.reply(id).is_some()), Duration::from_secs(20));
+                    let rc = &re;
+                    let wres = s2.wait_or_ping(|s| rc.iter().all(|id| s.reply(id).is_some()), Duration::from_secs(20));
+                    let ok = wres != Wait::Hung && wres != Wait::Died;
+                    if wres == Wait::TooSlow {
+                        acc.lock().unwrap().inconclusive.push("crash session too slow to judge".into());
+                    }
                     for id in &re {
                         if let Some(r) = s2.reply(id) {
                             answered.insert(id.clone(), r.clone());
                         }
                     }
                     if !ok {
-                        acc.lock().unwrap().v("R06c|e2e-replayed-htlc-unanswered", format!("{ctx}: replayed HTLCs {re:?} not all answered within 20 s (mpp 5 s)"));
+                        acc.lock().unwrap().v("R06c|e2e-replayed-htlc-unanswered", format!("{ctx}: replayed HTLCs {re:?} not all answered although a later plain forward was answered (mpp 5 s)"));
                     }
                     viol.extend(std::mem::take(&mut s2.node_violations));
                     second = Some(s2);
@@ -847,7 +889,13 @@ pub fn c14_e2e(bin: &str, seed: u64, sessions: u64) -> E2eResult {
                 s.preimages.insert(hex::encode(b.hash), b.preimage);
                 let t0 = Instant::now();
                 s.send_doc(&hook("b", tramp_request(&b, 99, 2_010_000, 2_010_000, height + 1100, height)), 0);
-                let ok = s.pump_until(|s| s.reply("b").is_some() || s.out_eof, Duration::from_secs(10));
+                let wres = s.wait_or_ping(|s| s.reply("b").is_some(), Duration::from_secs(10));
+                if wres == Wait::TooSlow {
+                    acc.lock().unwrap().inconclusive.push("session too slow to judge".into());
+                    s.finish();
+                    continue;
+                }
+                let ok = wres == Wait::Done;
                 let el = t0.elapsed();
                 let kind = s.reply("b").and_then(result_of).map(|x| x.0);
                 let a_answered: Vec<&String> = a_ids.iter().filter(|id| s.reply(id).is_some()).collect();
@@ -855,7 +903,7 @@ pub fn c14_e2e(bin: &str, seed: u64, sessions: u64) -> E2eResult {
                 g.e("R14a-e2e", 1);
                 g.class(format!("A stuck in {at} x{n_a}"));
                 if !ok || kind.as_deref() != Some("resolve") {
-                    g.v(&format!("R14a|e2e-other-hash-blocked|{at}"), format!("{n_a} payment(s) stuck in {at}; payment B for another hash answered {:?} after {el:?} (limit 10 s)", s.reply("b").map(|r| r["result"].to_string())));
+                    g.v(&format!("R14a|e2e-other-hash-blocked|{at}"), format!("{n_a} payment(s) stuck in {at}; payment B for another hash answered {:?} after {el:?} although a later plain forward was answered", s.reply("b").map(|r| r["result"].to_string())));
                 }
                 if !a_answered.is_empty() {
                     g.v(&format!("R14a|e2e-stuck-payment-answered|{at}"), format!("HTLCs {a_answered:?} of the stuck payment were answered"));
